@@ -21,6 +21,10 @@ CHECKS = {
    technique="TLA+ spec Mcmc.tla (one action per phase of MCMC.run) model-checked with TLC for every target function; trace validation of recorded real chains by TraceMcmc.tla (total validation naming the failing clause), records built from the TORCHTREE_VERIF hook, instance wrappers and independent measurements (fresh-copy target, recomputed Hastings ratio, recomputed acceptance rule, boldness before/after tuning)",
    text="TLC checks the loop invariants (carried density = target, proposal evaluated on target, rejection restores, logged rows consistent, non-finite never accepted, tuning direction with measured boldness signs) over all 26 target functions on 3 states x 2 operators; real chains for every operator type (sliding window, scaler, Dirichlet, GMRF block update, HMC diag/dense with AdaptiveStepSize / DualAveraging / MassMatrixAdaptor), mixtures, adaptation on/off, out-of-support proposals and CLI-built phylogenetic targets are recorded and every iteration is stepped through the spec's phase actions with the clauses of the property evaluated by TLC.",
    note="Density ids identify floats within relative 1e-9; fresh-copy target is a rebuild from JSON with the recorded raw parameter values; dual averaging and the running-rate step-size variant are not judged step by step (by design, see DESIGN C15); block-update Hastings ratio not recomputed independently; chains are finite samples of the schedule space (seeded)."),
+ "C17": dict(level="model_checking", design="4/C17",
+   technique="TLA+ spec Checkpoint.tla (run/checkpoint/die/restart/continue with a lossy channel) model-checked with TLC using constants measured on the real code per configuration; real restarts through torchtree.main compared leaf by leaf (state_dict, parameters, dtypes, nn flags), resumed vs uninterrupted parameter-state sequences, update counts",
+   text="For every configuration (Optimizer x SGD+momentum/Adam/Adagrad/RMSprop/LBFGS x StepLR/LambdaLR x float32/float64 x nn.Parameter, ELBO objective, two-stage documents with several -c files; MCMC x sliding/scaler/Dirichlet/HMC diag+dense with AdaptiveStepSize/DualAveraging/MassMatrixAdaptor) the run is interrupted at every checkpoint, restarted through the command-line entry point, and every leaf of the run state is compared before/after, the resumed parameter-state sequence is compared with the uninterrupted run and the number of applied updates is compared; TLC explores every interruption point and repeated restarts of the loop bookkeeping for the measured constants and must agree with the real runs.",
+   note="RNG state at the checkpoint is re-installed by the harness (the library does not checkpoint it); interruption points = iterations at which a checkpoint is written; Sampler and normalising-flow modules are not covered."),
 }
 
 PENDING = {}
